@@ -235,6 +235,21 @@ struct JSONUtils {
                 }
 
                 default: {
+                    if ((ch >= Char_T{0}) && (ch < Char_T{0x20})) {
+                        // Every other control character has to be written as \u00XX (RFC 8259, section 7).
+                        constexpr const char *hex = "0123456789ABCDEF";
+
+                        stream.Write((content + offset2), (offset - offset2));
+                        offset2 = offset;
+                        ++offset2;
+
+                        stream += JSONotation::BSlashChar;
+                        stream += JSONotation::U_Char;
+                        stream += Char_T('0');
+                        stream += Char_T('0');
+                        stream += Char_T(hex[SizeT32(ch) >> 4U]);
+                        stream += Char_T(hex[SizeT32(ch) & 0xFU]);
+                    }
                 }
             }
 
